@@ -451,6 +451,36 @@ def run_c18_case(case, acc):
             acc.count('C18:reused_universe_pairs')
         finally:
             world.close()
+        # (e2) a STATIC universe object first serves a session that comes to hold an asset outside it (fixed weights naming
+        # a non-member), then a session whose membership-driven alpha model reads the same object
+        syms_ = ['EQ:' + s_ for s_ in cfg['market']['assets']]
+        if len(syms_) >= 3 and case.get('seed', 0) % 2 == 0 and 'late' not in cfg['market']:
+            members, outsider = syms_[:-1], syms_[-1]
+            cfg_s = json.loads(json.dumps(cfg))
+            cfg_s.pop('market2', None)
+            cfg_s['universe'] = {'kind': 'static', 'assets': members}
+            cfg_s['alpha'] = {'kind': 'single', 'signal': 1.0}
+            cfg_s['long_only'] = True
+            cfg_s.setdefault('buffer', 0.05)
+            cfg_s.pop('leverage', None)
+            cfg_s['burn_in'] = None
+            ds_, rs_, _ = one_digest(cfg_s)
+            world = sesswl.make_world(cfg_s)
+            try:
+                shared = {'share_universe': True}
+                first = json.loads(json.dumps(cfg_s))
+                first['alpha'] = {'kind': 'fixed', 'weights': {members[0]: 0.5, outsider: 0.5}}
+                sesswl.run_session(first, world, shared=shared)
+                shared.pop('source', None)
+                d8, r8, _ = one_digest(cfg_s, shared=shared, world=world)
+                acc.count('C18:runs', 3)
+                if ds_ != d8:
+                    k, i, x, y = first_difference(rs_, r8)
+                    raise Violation('C18', 'reused-static-universe-object/%s' % k, 'a run whose StaticUniverse object already served a session '
+                                    'that held a non-member differs at %s #%d: %s vs %s' % (k, i, x, y), {'mode': 'reused-static-universe'})
+                acc.count('C18:reused_static_universe_pairs')
+            finally:
+                world.close()
         # (f) the same alpha model object - and with it the caller's weights dict - serves a first run and then this one
         if cfg['alpha']['kind'] == 'fixed':
             world = sesswl.make_world(cfg)
